@@ -70,6 +70,10 @@ PARSER_TREES = {
     # several strings and keys in one document: whatever a string leaves pending must not reach the next one
     'surrseq': dict(alpha=toks('\\uD800', '\\uDC00', 'a', '","', '":"', '\\u0041'),
                     prefix='{"', suffix='"}', opts=ALLOPTS, maxlen={'quick': 4, 'thorough': 5}),
+    # several KEYS in one object, some of them equal after decoding (unpaired escapes and U+FFFD itself, raw and escaped):
+    # members are kept, in order, whatever the options
+    'surrkeys': dict(alpha=toks('\\uD800', '\\uDC00', '\\uFFFD', '\ufffd', 'x', '":0,"'),
+                     prefix='{"', suffix='":0}', opts=ALLOPTS, maxlen={'quick': 4, 'thorough': 5}),
     # tokens with whitespace and multi-byte characters: code-map spans
     'tokens': dict(alpha=toks('[', ']', '{', '}', ',', ':', ' ', '"\u00e9"', '"\\u00e9\U0001F600"', '-1.5e3', 'true', '\r\n'),
                    prefix='', suffix='', opts=STRICT, maxlen={'quick': 6, 'thorough': 7}),
